@@ -1967,3 +1967,67 @@ func c15r20(rc *core.RC) {
 		rc.Unknown(key, fd.Pos(), "neither a loop over the candidates nor a fixed selection found")
 	}
 }
+
+// ---- C15.R21 only member names are promoted from an embedded struct ----
+
+// A struct decoder's field map holds, next to every member name, a lower-case alias for case-insensitive matching.
+// When the members of an embedded struct are promoted into the outer struct, the aliases must stay behind: promoted
+// as if it were a member called "x", the alias of a hidden A.X survives the conflict resolution (nothing else is
+// called "x" exactly) and the key "x" then selects A.X instead of the outer X that hides it.
+func c15r21(rc *core.RC) {
+	p := rc.P
+	fd := p.Func("decoder", "compileStruct")
+	if fd == nil || fd.Body == nil {
+		rc.Unknown("decoder.compileStruct", token.NoPos, "function not found")
+		return
+	}
+	info := p.Info(fd)
+	rc.Touch("decoder.compileStruct")
+	k := 0
+	ast.Inspect(fd.Body, func(m ast.Node) bool {
+		rs, ok := m.(*ast.RangeStmt)
+		if !ok || rs.Key == nil || rs.Value == nil {
+			return true
+		}
+		f := core.FieldOf(info, rs.X)
+		if f == nil || f.Name() != "fieldMap" {
+			return true
+		}
+		sel, ok := core.Unparen(rs.X).(*ast.SelectorExpr)
+		if !ok {
+			return true
+		}
+		if t := info.TypeOf(sel.X); t == nil || !strings.HasSuffix(t.String(), "decoder.structDecoder") {
+			return true
+		}
+		k++
+		key := fmt.Sprintf("decoder.compileStruct/promotion#%d aliases-stay-behind", k)
+		kobj, vobj := core.ObjOf(info, rs.Key), core.ObjOf(info, rs.Value)
+		skips := false
+		for _, st := range rs.Body.List {
+			ifs, isIf := st.(*ast.IfStmt)
+			if !isIf || len(ifs.Body.List) == 0 {
+				continue
+			}
+			if br, isBr := ifs.Body.List[len(ifs.Body.List)-1].(*ast.BranchStmt); !isBr || br.Tok != token.CONTINUE {
+				continue
+			}
+			be, isBin := core.Unparen(ifs.Cond).(*ast.BinaryExpr)
+			if !isBin || be.Op != token.NEQ {
+				continue
+			}
+			isKeyOf := func(e ast.Expr) bool {
+				s2, isSel := core.Unparen(e).(*ast.SelectorExpr)
+				return isSel && s2.Sel.Name == "key" && core.ObjOf(info, s2.X) == vobj
+			}
+			if (core.ObjOf(info, be.X) == kobj && isKeyOf(be.Y)) || (core.ObjOf(info, be.Y) == kobj && isKeyOf(be.X)) {
+				skips = true
+			}
+		}
+		rc.Check(skips, key, rs.Pos(), "the loop that promotes the members of an embedded struct skips the entries whose map key is not the entry's own name (the lower-case aliases): promoted, the alias of a hidden member answers the lower-case key in place of the member that hides it")
+		return true
+	})
+	if k < 2 {
+		rc.Unknown("decoder.compileStruct/promotions-aliases", fd.Pos(), "found %d promotion loops (confirmed: 2)", k)
+	}
+}
